@@ -78,6 +78,16 @@ def rule_panic(c, prog, g, dreach):
         origins = None
         for s in sites:
             n += 1
+            if s["kind"] == "unwrap":
+                # taking the next element of a local sequence (`q.pop_front()`, `q.pop_back()`, `it.next()`, `v.pop()`):
+                # the site is identified by what is taken, not by the container or the end it is taken from
+                a0 = core.call_args(s["node"])
+                r0 = core.strip(a0[0]) if a0 else {}
+                if r0.get("k") == "MethodCall" and r0["m"] in ("pop_front", "pop_back", "pop", "next") and not r0["args"] and core.strip(r0["recv"]).get("res") == "local":
+                    ty0 = (core.strip(r0["recv"]).get("ty") or "").replace("&mut ", "")
+                    m0 = re.search(r"<([^<>]*)>$", ty0)
+                    if m0 and re.search(r"(VecDeque|Vec|IntoIter|Drain)<", ty0):
+                        s = dict(s, fp="unwrap∘take(" + m0.group(1).split(",")[0].strip().rsplit("::", 1)[-1] + ")")
             inst = f"{fn.path}|{s['kind']}|{s['fp']}"
             if s["kind"] == "index":
                 # computed discharges (sa.bounds): independent of names, loop order and helper structure
@@ -462,6 +472,7 @@ def rule_ovf(c, prog, g, dreach):
 def rule_alloc(c, prog, g, dreach):
     R = "C13.alloc"
     ordinal = {}
+    ordinal_old = {}
     c.rule(R, "an integer read from the input (read_le_u32 …, FileHeader / ChunkHeader fields) must not reach an allocation size (with_capacity, vec![_; n], reserve) unless bounded by the bytes actually held (min(..), len() of held data)")
     n = 0
     for fn in lib_named(prog, dreach):
@@ -491,10 +502,13 @@ def rule_alloc(c, prog, g, dreach):
             else:
                 # a site is identified by function, allocator and the *origin* of the tainted size (header field /
                 # read primitive), numbered among equals in source order — not by the names of intermediate locals
-                ordk = (fn.path, name, t[6:])
+                # (the kind of container allocated is not part of the identity: Vec for VecDeque is the same site)
+                ordk = (fn.path, t[6:])
                 ordinal[ordk] = ordinal.get(ordk, 0) + 1
-                key = f"{fn.path}|{name}|from {t[6:]}#{ordinal[ordk]}"
-                OLDKEYS[key] = f"C13.alloc|{fn.path}|{name}|{core.fingerprint(size, 4)}"
+                oldk = (fn.path, name, t[6:])
+                ordinal_old[oldk] = ordinal_old.get(oldk, 0) + 1
+                key = f"{fn.path}|alloc|from {t[6:]}#{ordinal[ordk]}"
+                OLDKEYS[key] = f"C13.alloc|{fn.path}|{name}|from {t[6:]}#{ordinal_old[oldk]}"
                 c.violation(R, key, f"{fn.path}: `{name}({core.fingerprint(size, 4)})` sizes an allocation from an integer read from the input ({t[6:]}) without bounding it by the bytes available: a few bytes of input can request gigabytes (abort / OOM)", core.loc(x), instance=inst)
     c.floor(R, n, 25, "allocation sites reachable from decoders")
 
